@@ -514,6 +514,39 @@ def refusals (a : ArraySized) : List (Op Elem) → Mem → List (Option Stat)
   | [], _ => []
   | op :: ops, m => a.refusal op m :: refusals (a.step op m).2.1 ops (a.step op m).2.2
 
+/-- successive `add` calls (the append-dominated histories of C20) -/
+def addAll (a : ArraySized) : List (Buf Nat) → Mem → ArraySized × Mem
+  | [], m => (a, m)
+  | x :: xs, m => addAll (a.add x m).2.1 xs (a.add x m).2.2
+
+/-- one call of the iterator API on `(it, a)` -/
+def iterStep (it : Iter) (a : ArraySized) (cmd : Spec.SSeq.IterCmd Elem) (m : Mem) : Out Elem × Iter × ArraySized × Mem :=
+  match cmd with
+  | .next => let r := a.iterNext it m; ({ st := some r.1, val := r.2.1 }, r.2.2.1, a, r.2.2.2)
+  | .remove => let r := a.iterRemove it m; ({ st := some r.1, val := r.2.1 }, r.2.2.1, r.2.2.2.1, r.2.2.2.2)
+  | .add x => let r := a.iterAdd it x m; ({ st := some r.1 }, r.2.1, r.2.2.1, r.2.2.2)
+  | .replace x => let r := a.iterReplace it x m; ({ st := some r.1, val := r.2.1 }, it, r.2.2.1, r.2.2.2)
+  | .index => ({ num := some (iterIndex it) }, it, a, m)
+
+def iterRefusal (it : Iter) (a : ArraySized) (cmd : Spec.SSeq.IterCmd Elem) (m : Mem) : Option Stat :=
+  match (iterStep it a cmd m).1.st with
+  | some .errAlloc => some .errAlloc
+  | some .errMaxCapacity => some .errMaxCapacity
+  | _ => none
+
+def iterRun (it : Iter) (a : ArraySized) : List (Spec.SSeq.IterCmd Elem) → Mem → List (Out Elem) × Iter × ArraySized × Mem
+  | [], m => ([], it, a, m)
+  | cmd :: cmds, m =>
+    let r := iterStep it a cmd m
+    let t := iterRun r.2.1 r.2.2.1 cmds r.2.2.2
+    (r.1 :: t.1, t.2.1, t.2.2.1, t.2.2.2)
+
+def iterRefusals (it : Iter) (a : ArraySized) : List (Spec.SSeq.IterCmd Elem) → Mem → List (Option Stat)
+  | [], _ => []
+  | cmd :: cmds, m =>
+    iterRefusal it a cmd m ::
+      iterRefusals (iterStep it a cmd m).2.1 (iterStep it a cmd m).2.2.1 cmds (iterStep it a cmd m).2.2.2
+
 /-- documented preconditions of one call: element arguments are buffers of `data_length` bytes,
 `map`'s function rewrites an element in place (same size), `sort`'s `qsort` rearranges -/
 def OpWF (dl : Nat) : Op Elem → Prop
